@@ -76,7 +76,7 @@ func groupOf(s *cat.Seed) string {
 }
 
 // blockSize consecutive cases of a seed's dense / tree families go to the same shard.
-const blockSize = 16
+const blockSize = 4
 
 // tier parameters
 type tierCfg struct {
@@ -167,8 +167,33 @@ func buildPlan(tier string, shard, nshards int) *plan {
 	seeds := cat.Seeds()
 	p := &plan{Tier: tier, Shard: shard, NShards: nshards, TotalSeeds: len(seeds)}
 
+	envs := map[string]cat.Envelope{}
+	for _, e := range cat.Envelopes() {
+		envs[e.Name] = e
+	}
+	vals := map[string]cat.Value{}
+	for _, v := range cat.Values() {
+		vals[v.Name] = v
+	}
+	// Seeds whose bytes may differ from process to process: an encoder that iterates a Go map
+	// with two entries (the protobuf converters, and the native address map encoders of trees
+	// without the ordering fix). cat's Unstable flag is itself an observation that varies from
+	// run to run, so the criterion here is structural: the entry contains a two-entry address
+	// map. The shards must agree on everything that is dealt between them, so such a seed is
+	// never selected for the dense families (unless representative), is never a reference for
+	// the prefix sharing of the truncations, and is run by one shard as a whole.
+	unst := make([]bool, len(seeds))
+	for i := range seeds {
+		s := &seeds[i]
+		if j := strings.Index(s.Name, "-envelope/"); j >= 0 && strings.HasSuffix(s.Kind, "-envelope") {
+			unst[i] = envs[s.Name[j+len("-envelope/"):]].Addr2 || strings.Contains(s.Name, "two")
+		} else {
+			unst[i] = strings.Contains(s.Name, "two")
+		}
+	}
+
 	// dense seeds: every representative, plus per (decoder, message type) seeds of distinct
-	// encoding length, evenly spaced over the lengths (shortest and longest included)
+	// encoding length, evenly spaced over the lengths
 	dense := map[int]bool{}
 	groups := map[string][]int{}
 	var gkeys []string
@@ -177,7 +202,7 @@ func buildPlan(tier string, shard, nshards int) *plan {
 		if s.Rep {
 			dense[i] = true
 		}
-		if s.Unstable || len(s.Bytes) > cfg.maxDense {
+		if unst[i] || s.Unstable || len(s.Bytes) > cfg.maxDense {
 			continue
 		}
 		g := groupOf(s)
@@ -223,7 +248,7 @@ func buildPlan(tier string, shard, nshards int) *plan {
 	truncFrom := map[int]int{}
 	byKind := map[string][]int{}
 	for i := range seeds {
-		if cfg.truncAll || dense[i] {
+		if (cfg.truncAll || dense[i]) && !unst[i] {
 			byKind[seeds[i].Kind] = append(byKind[seeds[i].Kind], i)
 		}
 	}
@@ -239,14 +264,25 @@ func buildPlan(tier string, shard, nshards int) *plan {
 			}
 		}
 	}
-
-	envs := map[string]cat.Envelope{}
-	for _, e := range cat.Envelopes() {
-		envs[e.Name] = e
-	}
-	vals := map[string]cat.Value{}
-	for _, v := range cat.Values() {
-		vals[v.Name] = v
+	// a possibly unstable seed runs the prefixes that it shares with no stable seed of its kind
+	for i := range seeds {
+		if !unst[i] || !(cfg.truncAll || dense[i]) {
+			continue
+		}
+		idx := byKind[seeds[i].Kind]
+		pos := sort.Search(len(idx), func(k int) bool { return bytes.Compare(seeds[idx[k]].Bytes, seeds[i].Bytes) >= 0 })
+		from := 0
+		if pos > 0 {
+			from = lcp(seeds[i].Bytes, seeds[idx[pos-1]].Bytes) + 1
+		}
+		if pos < len(idx) {
+			if l := lcp(seeds[i].Bytes, seeds[idx[pos]].Bytes) + 1; l > from {
+				from = l
+			}
+		}
+		if from < len(seeds[i].Bytes) {
+			truncFrom[i] = from
+		}
 	}
 
 	// Participating seeds. Truncations (and unstable seeds as a whole) are dealt to the shards
@@ -263,12 +299,16 @@ func buildPlan(tier string, shard, nshards int) *plan {
 		if !hasT && !dense[i] {
 			continue
 		}
-		ps := planSeed{Idx: i, Name: s.Name, Kind: s.Kind, Rep: s.Rep, Bytes: s.Bytes, TruncFrom: -1, Unstable: s.Unstable}
-		per := 2e-6 + 20e-9*float64(len(s.Bytes)) // a decode costs about 2 us plus 20 ns per byte
+		ps := planSeed{Idx: i, Name: s.Name, Kind: s.Kind, Rep: s.Rep, Bytes: s.Bytes, TruncFrom: -1, Unstable: unst[i]}
+		// a decode costs about 2 us plus 20 ns per byte (the few very long seeds are long strings, which are copied much faster)
+		per := 2e-6 + 20e-9*math.Min(float64(len(s.Bytes)), 4096)
 		cost := per
 		if hasT {
 			ps.TruncFrom = tf
 			p.TruncSeeds++
+			if unst[i] {
+				tf = 0 // the estimate must not depend on bytes that vary from process to process
+			}
 			cost += float64(len(s.Bytes)-tf) * per
 		}
 		if dense[i] {
@@ -287,8 +327,8 @@ func buildPlan(tier string, shard, nshards int) *plan {
 					p.PBPairSeeds++
 				}
 			}
-			if s.Unstable {
-				cost += (9*float64(len(s.Bytes)) + 30*float64(len(f))) * per
+			if unst[i] {
+				cost += 12 * float64(len(s.Bytes)) * per
 			}
 		}
 		items = append(items, item{ps, cost})
